@@ -62,10 +62,11 @@ type Addr struct {
 type State struct {
 	locals map[*ssa.Alloc]Term
 	heaps  map[string]Term
+	epoch  string // non-empty after a call that may have changed every heap: untouched heaps are no longer the entry version
 }
 
 func (s *State) clone() *State {
-	n := &State{locals: make(map[*ssa.Alloc]Term, len(s.locals)), heaps: make(map[string]Term, len(s.heaps))}
+	n := &State{locals: make(map[*ssa.Alloc]Term, len(s.locals)), heaps: make(map[string]Term, len(s.heaps)), epoch: s.epoch}
 	for k, v := range s.locals {
 		n.locals[k] = v
 	}
@@ -338,6 +339,13 @@ func (g *Gen) mapHeapKeys(m *types.Map) (has string, hasSort Sort, val string, v
 
 func (c *FnCtx) heap(st *State, key string, s Sort) Term {
 	if t, ok := st.heaps[key]; ok {
+		return t
+	}
+	if st.epoch != "" && !strings.HasPrefix(key, "GH_") && key != nextKey && key != ctxDoneKey {
+		// first touch after a call that may have changed everything: a version of its own
+		t := c.g.u.declareConst(fmt.Sprintf("%s%s_%s", c.prefix, key, st.epoch), s)
+		c.heapWellTyped(key, t)
+		st.heaps[key] = t
 		return t
 	}
 	// first touch: the initial version, shared by every state of this function
@@ -684,6 +692,11 @@ func (c *FnCtx) instrMods(in ssa.Instruction, locals map[*ssa.Alloc]bool, heaps 
 			}
 			for _, ef := range spec.Effects {
 				k := "GH_" + ef.Name[1:]
+				c.g.heapSorts[k] = SBool
+				heaps[k] = true
+			}
+			for _, h := range spec.Havocs {
+				k := "GH_" + h[1:]
 				c.g.heapSorts[k] = SBool
 				heaps[k] = true
 			}
@@ -1037,9 +1050,16 @@ func (c *FnCtx) mergeStates(b *ssa.BasicBlock, preds []*ssa.BasicBlock) (*State,
 		res.locals[k] = m
 	}
 	hkeys := map[string]bool{}
-	for _, i := range incs {
+	for n, i := range incs {
 		for k := range i.st.heaps {
 			hkeys[k] = true
+		}
+		if n == 0 {
+			res.epoch = i.st.epoch
+		} else if i.st.epoch != res.epoch {
+			// paths with and without an everything-changing call meet: untouched heaps get a new version
+			c.nfresh++
+			res.epoch = fmt.Sprintf("m%d", c.nfresh)
 		}
 	}
 	for _, k := range sortedKeys(hkeys) {
@@ -1049,7 +1069,11 @@ func (c *FnCtx) mergeStates(b *ssa.BasicBlock, preds []*ssa.BasicBlock) (*State,
 		for n, i := range incs {
 			t, ok := i.st.heaps[k]
 			if !ok {
-				t = c.entry.heaps[k]
+				if i.st.epoch != "" {
+					t = c.heap(i.st, k, c.g.heapSorts[k])
+				} else {
+					t = c.entry.heaps[k]
+				}
 			}
 			terms = append(terms, t)
 			if n == 0 {
